@@ -1316,11 +1316,14 @@ where
                         .await?;
 
                         if !server.in_transaction() {
-                            // Report transaction executed statistics.
-                            self.stats.transaction();
-                            server
-                                .stats()
-                                .transaction(self.server_parameters.get_application_name());
+                            // Report transaction executed statistics. A COPY ... FROM STDIN
+                            // that has only just started is counted when it finishes.
+                            if !server.in_copy_mode() {
+                                self.stats.transaction();
+                                server
+                                    .stats()
+                                    .transaction(self.server_parameters.get_application_name());
+                            }
 
                             // Release server back to the pool if we are in transaction mode.
                             // If we are in session mode, we keep the server until the client disconnects.
